@@ -137,6 +137,15 @@ func (a *HypAttributes) Validate() error {
 		}
 	}
 
+	// NOTE: the gas limit reaches the interchain gas paymaster of the Hyperlane module, which
+	// multiplies it by the gas price and the token exchange rate of the destination with
+	// arithmetic that panics above 256 bits. A gas limit is a 64-bit quantity on every
+	// destination chain: any other value is refused here instead of aborting the transaction
+	// there.
+	if !a.GasLimit.IsNil() && (a.GasLimit.IsNegative() || !a.GasLimit.IsUint64()) {
+		return errors.New("gas limit cannot be negative and must fit in 64 bits")
+	}
+
 	// NOTE: the Hyperlane module creates sdk.Coins from the max fee, which panics on an invalid
 	// coin. A zero amount is accepted with an empty denom (the unset max fee) because zero coins
 	// are discarded, but a denom that is set must be valid: an arbitrary string does not survive
